@@ -168,6 +168,89 @@ mod imp {
         let l = probe_take();
         l.usets
     }
+    // ---- the same sequence through every iterator shape the library declares trusted ----
+    pub const SHAPES: [&str; 19] = [
+        "Vec::into_iter", "slice.iter().cloned()", "slice.iter().copied()", "(0..n).map", "scan (running state)", "zip.map", "chain", "take", "rev",
+        "enumerate.map", "step_by(2)", "(0..=n-1).map", "VecDeque::into_iter (wrapped)", "VecDeque.iter().cloned()", "Array1.iter().cloned()",
+        "filter.to_trust(n)", "windows(1).map", "chunks_exact(1).map", "titer()",
+    ];
+    /// evaluate `$body` with `$it` bound to the sequence 10, 11, .. (n items) built as shape `$k`
+    macro_rules! shape {
+        ($k:expr, $n:expr, |$it:ident| $body:expr) => {{
+            let n: usize = $n;
+            let v: Vec<f64> = (0..n).map(|i| 10.0 + i as f64).collect();
+            match $k {
+                0 => { let $it = v.clone().into_iter(); $body }
+                1 => { let $it = v.iter().cloned(); $body }
+                2 => { let $it = v.iter().copied(); $body }
+                3 => { let $it = (0..n).map(|i| 10.0 + i as f64); $body }
+                4 => { let $it = v.iter().cloned().scan(9.0f64, |s, _x| { *s += 1.0; Some(*s) }); $body }
+                5 => { let ones = vec![1.0f64; n]; let $it = v.iter().zip(ones.iter()).map(|(a, b)| *a + *b - 1.0); $body }
+                6 => { let (a, b) = v.split_at(n / 2); let $it = a.iter().cloned().chain(b.iter().cloned()); $body }
+                7 => { let mut long = v.clone(); long.extend([-1.0, -2.0, -3.0]); let $it = long.into_iter().take(n); $body }
+                8 => { let mut r = v.clone(); r.reverse(); let $it = r.into_iter().rev(); $body }
+                9 => { let $it = v.clone().into_iter().enumerate().map(|(i, _)| 10.0 + i as f64); $body }
+                10 => { let d: Vec<f64> = v.iter().flat_map(|x| [*x, -9.0]).collect(); let $it = d.into_iter().step_by(2); $body }
+                11 => { if n == 0 { let $it = std::iter::empty::<f64>(); $body } else { let $it = (0..=n - 1).map(|i| 10.0 + i as f64); $body } }
+                12 => { let d = mc_adapt::backends::deque_with_head(&v, n.max(4), 3, 0.0); let $it = d.into_iter(); $body }
+                13 => { let d = mc_adapt::backends::deque_with_head(&v, n.max(4), n.max(4) - 1, 0.0); let $it = d.iter().cloned(); $body }
+                14 => { let a = Array1::from_vec(v.clone()); let $it = a.iter().cloned(); $body }
+                15 => { let $it = v.clone().into_iter().filter(|x| *x > 0.0).to_trust(n); $body }
+                16 => { let $it = v.windows(1).map(|w| w[0]); $body }
+                17 => { let $it = v.chunks_exact(1).map(|c| c[0]); $body }
+                _ => { let $it = v.titer(); $body }
+            }
+        }};
+    }
+    /// (TrustedLen::len, is_empty) of the fresh iterator
+    pub fn shape_len(k: usize, n: usize) -> Outcome<(usize, bool)> {
+        catch(|| shape!(k, n, |it| (TrustedLen::len(&it), TrustedLen::is_empty(&it))))
+    }
+    /// the collectors on that shape
+    pub fn shape_collect(k: usize, n: usize) -> Vec<(&'static str, Outcome<Vec<Cell>>)> {
+        vec![
+            ("collect_trusted_to_vec", catch(|| shape!(k, n, |it| it.collect_trusted_to_vec().cells()))),
+            ("collect_trusted_vec1<VecDeque>", catch(|| shape!(k, n, |it| it.collect_trusted_vec1::<VecDeque<f64>>().cells()))),
+            ("collect_trusted_vec1<Array1>", catch(|| shape!(k, n, |it| it.collect_trusted_vec1::<Array1<f64>>().cells()))),
+            ("collect_vec1<Vec>", catch(|| shape!(k, n, |it| it.collect_vec1::<Vec<f64>>().cells()))),
+        ]
+    }
+    /// write into a buffer of `bl` slots of container / layout `sink`: (Ok?, slots afterwards; the pre-fill -777 marks an unwritten slot)
+    pub const SINKS: [&str; 8] = ["Vec", "VecDeque", "Array1", "VecDeque (wrapped ring, head 3)", "VecDeque (wrapped ring, head len-1)", "Array1 (view, step 2)", "Array1 (reversed view)", "Array1 (view, step 3, offset 1)"];
+    pub fn shape_write(k: usize, n: usize, bl: usize, sink: usize) -> Outcome<(bool, Vec<Cell>)> {
+        use mc_adapt::outbuf::OutBuf;
+        macro_rules! canon {
+            ($O:ty) => {{
+                // a canonical buffer is only read back when the write succeeded
+                let mut buf = <$O as Vec1<f64>>::uninit(bl);
+                let ok = {
+                    let mut out = <$O as Vec1<f64>>::uninit_ref_mut(&mut buf);
+                    shape!(k, n, |it| it.write(&mut out).is_ok())
+                };
+                (ok, if ok { unsafe { buf.assume_init() }.cells() } else { vec![] })
+            }};
+        }
+        macro_rules! alt {
+            ($O:ty, $kind:expr) => {{
+                let mut ok = false;
+                let vals = <$O as OutBuf<f64>>::alt_run(bl, $kind, &|| -777.0, |mut out| {
+                    ok = shape!(k, n, |it| it.write(&mut out).is_ok());
+                });
+                (ok, vals.into_iter().map(Cell::f).collect())
+            }};
+        }
+        catch(|| match sink {
+            0 => canon!(Vec<f64>),
+            1 => canon!(VecDeque<f64>),
+            2 => canon!(Array1<f64>),
+            3 => alt!(VecDeque<f64>, 1),
+            4 => alt!(VecDeque<f64>, 2),
+            5 => alt!(Array1<f64>, 1),
+            6 => alt!(Array1<f64>, 2),
+            _ => alt!(Array1<f64>, 3),
+        })
+    }
+
     /// the same on the real containers (only driven when the model says every slot is written)
     pub fn write_iter_real(c: Cont, buf_len: usize, iter_len: usize) -> Outcome<(bool, Vec<Cell>)> {
         macro_rules! go {
@@ -613,6 +696,66 @@ fn check_write(ctx: &mut Ctx, max_len: usize) {
     }
 }
 
+/// every iterator shape the library declares trusted, yielding the same sequence: its announced length, the
+/// collectors, and writes into buffers of every container and layout (equal length, single item broadcast, mismatch)
+fn check_shapes(ctx: &mut Ctx, max_len: usize) {
+    let fam = "iterator-shapes";
+    for k in 0..SHAPES.len() {
+        for n in 0..=max_len {
+            ctx.states += 1;
+            ctx.fam(fam).states += 1;
+            ctx.nontrivial(fam, (k * 1000 + n) as u64);
+            let seq: Vec<Cell> = (0..n).map(|i| Cell::F(10.0 + i as f64)).collect();
+            let case = |extra: Value| json!({"family": fam, "shape": SHAPES[k], "shape_no": k, "iter_len": n, "detail": extra});
+            let l = shape_len(k, n);
+            ctx.evals += 1;
+            if !matches!(&l, Outcome::Ok((len, empty)) if *len == n && *empty == (n == 0)) {
+                viol(ctx, "TrustedLen::len / is_empty", None, case(json!({})), format!("({n}, {})", n == 0), format!("{l:?}"));
+            }
+            for (cname, got) in shape_collect(k, n) {
+                ctx.eval(fam, outcome_hash(&got));
+                ctx.transitions += 1;
+                if !matches!(&got, Outcome::Ok(c) if cells_eq(c, &seq, exact_eq)) {
+                    viol(ctx, &format!("collector:{cname}"), None, case(json!({"collector": cname})), show_cells(&seq), show_outcome(&got));
+                }
+            }
+            let mut bls = vec![n, n + 1, 3];
+            if n > 0 {
+                bls.push(n - 1);
+            }
+            bls.sort();
+            bls.dedup();
+            for bl in bls {
+                let want: Result<Vec<Cell>, ()> = if bl == 0 {
+                    Ok(vec![])
+                } else if n == bl {
+                    Ok(seq.clone())
+                } else if n == 1 {
+                    Ok(vec![Cell::F(10.0); bl])
+                } else {
+                    Err(())
+                };
+                for (si, sname) in SINKS.iter().enumerate() {
+                    let got = shape_write(k, n, bl, si);
+                    ctx.eval(fam, hash_bytes(format!("{got:?}").as_bytes()));
+                    ctx.transitions += 1;
+                    let ok = match (&got, &want) {
+                        (Outcome::Ok((true, cells)), Ok(w)) => cells_eq(cells, w, exact_eq),
+                        // a mismatch is reported and nothing is written (alternative layouts show the pre-fill)
+                        (Outcome::Ok((false, cells)), Err(())) => cells.iter().all(|c| matches!(c, Cell::F(v) if *v == -777.0)),
+                        _ => false,
+                    };
+                    if ok {
+                        ctx.traces += 1;
+                    } else {
+                        viol(ctx, "write (iterator shape)", None, case(json!({"buffer_len": bl, "sink": sname})), format!("{want:?}"), truncate(&format!("{got:?}"), 200));
+                    }
+                }
+            }
+        }
+    }
+}
+
 /// the checked slot write: Ok and exactly one write for idx < len, an error and no write otherwise
 fn check_set(ctx: &mut Ctx, max_len: usize) {
     let fam = "checked-set";
@@ -657,6 +800,9 @@ fn main() {
     }
     if only.as_deref().map_or(true, |f| f == "write_trust_iter") {
         check_write(&mut ctx, max_len);
+    }
+    if only.as_deref().map_or(true, |f| f == "iterator-shapes") {
+        check_shapes(&mut ctx, run.pick(6, 12));
     }
     if only.as_deref().map_or(true, |f| f == "checked-set") {
         check_set(&mut ctx, max_len);
